@@ -124,8 +124,86 @@ theorem keys_values_consistent (d : Dict κ ν) (hw : DWF d) :
 
 end Dict
 
+/-! ### mutation during iteration -/
+section Iter
+variable {σ μ : Type} (apply : σ → μ → Except Err σ) (size : σ → Nat)
+
+/-- While an iteration over the container is active — however many, however nested — a program either
+    fails with the mutation error (exactly when it attempts a mutation, whatever its arguments) or leaves
+    the container as it is: nothing that runs inside an iteration can change the iterated container. -/
+theorem iteration_guards (p : Prog μ) (n : Nat) (c : σ) :
+    runProg apply size (n + 1) c p = if p.attempts (size c) then .error .mutation else .ok c :=
+  runProg_guarded apply size p n c
+
+/-- A mutation attempted anywhere inside the body of an iteration step that is reached fails with the
+    mutation error — also after a nested iteration over the same container has ended (the guard of the
+    outer iteration is still in force), and inside a nested iteration. -/
+theorem mutation_in_iteration_fails (j : Nat) (body : Prog μ) (n : Nat) (c : σ) (hj : j < size c)
+    (hb : body.attempts (size c) = true) :
+    runProg apply size n c (.iter j body) = .error .mutation ∧
+    (∀ i m, runProg apply size n c (.iter j (.seq (.iter i .skip) (.mutate m))) = .error .mutation) ∧
+    (∀ m, runProg apply size n c (.iter j (.iter 0 (.mutate m))) = .error .mutation) := by
+  have h0 : 0 < size c := by omega
+  refine ⟨?_, fun i m => ?_, fun m => ?_⟩
+  · simp [runProg, hj, runProg_guarded, hb]
+  · simp [runProg, hj, runProg_guarded, Prog.attempts]
+  · simp [runProg, hj, runProg_guarded, Prog.attempts, h0]
+
+/-- Once the iteration has ended (normally, or because the step with the body was never reached) the
+    guard is gone: a mutation after it is the plain mutation; and with no iteration active at all a
+    mutation is the plain mutation. -/
+theorem guard_released_after_iteration (j : Nat) (body : Prog μ) (m : μ) (c : σ)
+    (hb : body.attempts (size c) = false) :
+    runProg apply size 0 c (.seq (.iter j body) (.mutate m)) = apply c m ∧
+    runProg apply size 0 c (.mutate m) = apply c m := by
+  constructor
+  · by_cases hj : j < size c
+    · simp [runProg, hj, runProg_guarded, hb]
+    · simp [runProg, hj]
+  · simp [runProg]
+
+end Iter
+
 /-! ### the machine of the `cont` stream -/
 open Verif.Model.Cont Verif.Proofs.ContMachine
+
+/-- The iteration operations of the `cont` machine (`for` / `map` / `forEachKey` over the container, a
+    nested iteration over the same container, a mutation placed at step `j`, after the loop, or after a
+    `break`): the mutation inside the loop fails with the mutation error exactly when step `j` is reached
+    (`j < size`), for every kind of nesting and every mutation, whatever its index or key; otherwise nothing
+    changes.  After the loop — also after a `break` — the mutation is the plain one. -/
+theorem iter_op_spec (c : Cont) (outer nest j : Nat) (m : Op) (hm : (applyMut c m).isSome = true) :
+    stepT c (.iter outer nest (.at j) m) =
+      (if j < size c then .error .mutation else .ok (c, .steps (size c) (size c))) ∧
+    stepT c (.iter outer nest .after m) = (applyMutT c m).map (fun c' => (c', .steps (size c) (size c'))) ∧
+    stepT c (.iter outer nest (.breakAt j) m) =
+      (applyMutT c m).map (fun c' => (c', .steps (min j (size c)) (size c'))) := by
+  obtain ⟨r, hr⟩ := Option.isSome_iff_exists.1 hm
+  have hs : ∀ w, stepT c (.iter outer nest w m) =
+      (runProg applyMutT size 0 c (iterProg nest w m)).map fun c' => (c', .steps (iterSteps (size c) w) (size c')) := by
+    intro w
+    have : step c (.iter outer nest w m) = iterStep c nest w m := by cases c <;> rfl
+    simp [stepT, this, iterStep, hr]
+  have hin : ∀ k, (if nest = 1 ∨ nest = 2 then Prog.iter 0 Prog.skip else (Prog.skip : Prog Op)).attempts k = false := by
+    intro k; split <;> simp [Prog.attempts]
+  refine ⟨?_, ?_, ?_⟩
+  · rw [hs]
+    by_cases hj : j < size c
+    · have h0 : 0 < size c := by omega
+      by_cases h3 : nest = 3
+      · simp [iterProg, h3, runProg, hj, runProg_guarded, Prog.attempts, h0, Except.map]
+      · simp [iterProg, h3, runProg, hj, runProg_guarded, Prog.attempts, hin, Except.map]
+    · by_cases h3 : nest = 3
+      · simp [iterProg, h3, runProg, hj, Except.map, iterSteps]
+      · simp [iterProg, h3, runProg, hj, Except.map, iterSteps]
+  · rw [hs]
+    have := (guard_released_after_iteration applyMutT size 0
+      (if nest = 1 ∨ nest = 2 then Prog.iter 0 Prog.skip else Prog.skip) m c (hin _)).1
+    simp only [iterProg, this, iterSteps]
+  · rw [hs]
+    have := (guard_released_after_iteration applyMutT size j
+      (if nest = 1 ∨ nest = 2 then Prog.iter 0 Prog.skip else Prog.skip) m c (hin _)).1
+    simp only [iterProg, this, iterSteps]
 
 /-- Keys stay distinct along every operation, every transaction and every history (so
     `keys_values_consistent` applies to every dictionary reachable from the empty one). -/
@@ -162,5 +240,14 @@ example : readAt [1, 2, (3 : Int)] 3 = .error .index ∧ readAt [1, 2, (3 : Int)
 example : (dInsert (dInsert ([] : Dict Int Int) 1 10).2 1 11) = (some 10, [(1, 11)]) := by decide
 example : (runHist stepT (.arr []) [[.append (.int 1), .append (.int 2)], [.read 5], [.removeFirst]]).1 = .arr [.int 2] := by
   decide
+
+-- the seeded-change shape: a nested iteration over the same array ends, then the outer loop's body appends
+example : (runHist stepT (.arr [.int 1, .int 2, .int 3]) [[.iter 0 1 (.at 2) (.append (.int 4))], [.length]]).2.map (·.outcome) =
+    [some .mutation, none] := by decide
+example : (runHist stepT (.arr [.int 1, .int 2, .int 3])
+    [[.iter 0 1 (.at 3) (.append (.int 4)), .iter 1 2 .after (.append (.int 4)), .iter 0 0 (.breakAt 1) (.remove 9)]]).2.map
+      (fun o => (o.outcome, o.logs)) = [(some .index, [.steps 3 3, .steps 3 4])] := by decide
+example : (runHist stepT (.dict [(.int 1, .int 10)]) [[.iter 1 3 (.at 0) (.dRemove (.int 7))]]).2.map (·.outcome) =
+    [some .mutation] := by decide
 
 end Verif.Properties.C20
